@@ -7,5 +7,6 @@ CONSTANTS
   NShards = @NSHARDS@
   AllRS = @ALLRS@
   Wide = @WIDE@
+  Mism = @MISM@
 INVARIANTS Emit
 CHECK_DEADLOCK FALSE
